@@ -635,29 +635,30 @@ Definition limit_ok (limit : option Z) (clen : Z) : Prop :=
   | Some L => L < 0 \/ clen + 2 < L
   end.
 
-(* The contract of a line source, on the states [P] it can be in.
-   [rem s] are the bytes not yet handed out. *)
+(* The contract of a line source, for the size arguments [L] it is called
+   with and on the states [P] it can be in.  [rem s] are the bytes not yet
+   handed out. *)
 Section Contract.
   Variable St : Type.
   Variable rl : Z -> St -> bytes * St.
   Variable rem : St -> bytes.
 
-  Record good_reader (P : St -> Prop) : Prop := {
+  Record good_reader (L : Z -> Prop) (P : St -> Prop) : Prop := {
     (* P is closed under reading *)
-    gr_inv : forall lim s, P s -> P (snd (rl lim s));
+    gr_inv : forall lim s, L lim -> P s -> P (snd (rl lim s));
     (* the pieces concatenate to the input *)
-    gr_concat : forall lim s, P s ->
+    gr_concat : forall lim s, L lim -> P s ->
       fst (rl lim s) ++ rem (snd (rl lim s)) = rem s;
     (* an empty piece means end of input *)
-    gr_progress : forall lim s, P s -> lim <> 0 -> rem s <> [] ->
+    gr_progress : forall lim s, L lim -> P s -> lim <> 0 -> rem s <> [] ->
       fst (rl lim s) <> [];
     (* a piece never runs past a CRLF *)
-    gr_line : forall lim s, P s -> no_inner_crlf (fst (rl lim s));
+    gr_line : forall lim s, L lim -> P s -> no_inner_crlf (fst (rl lim s));
     (* a piece that does not end with LF is a size cut or the end of input *)
-    gr_full : forall lim s, P s -> ~ ends_lf (fst (rl lim s)) ->
+    gr_full : forall lim s, L lim -> P s -> ~ ends_lf (fst (rl lim s)) ->
       0 <= lim <= len (fst (rl lim s)) \/ rem (snd (rl lim s)) = [];
     (* when a cut separates CR from LF, the LF comes back on its own *)
-    gr_lone_lf : forall lim lim' s, P s -> lim' <> 0 ->
+    gr_lone_lf : forall lim lim' s, L lim -> L lim' -> P s -> lim' <> 0 ->
       (exists z, fst (rl lim s) = z ++ [13]) ->
       (exists t, rem (snd (rl lim s)) = 10 :: t) ->
       fst (rl lim' (snd (rl lim s))) = [10]
